@@ -1,4 +1,4 @@
-import GoomVerif.Lemmas.C03L
+import GoomVerif.Props.C03
 /-!
 # Findings for C03 (not obligations): the relocation code as it was before fixes F2/F3 (`Cfg.legacy`), and F4/F5.
 
@@ -56,6 +56,11 @@ theorem F4_reentry_not_refused :
     ∃ out n, fixRelativeAddr Cfg.fixed 0x500000#64 0x600000#64 24 13 .eof s2 = .ok (out, n) ∧ n = 15 ∧
       (∃ i ∈ s2, i.pcrelOff ≠ 0 ∧ (22 : Int) + i.len + sdisp i.field = 0) := by
   refine ⟨_, _, rfl, by decide, ⟨s2.getLast (by decide), by decide, by decide, by decide⟩⟩
+
+/-- the full no-re-entry statement `C03.NoReentry` is false for this (stock) function although the relocation succeeds -/
+theorem F4_NoReentry_false : ¬ C03.NoReentry 15 24 s2 := by
+  intro h
+  exact h 22 (s2.getLast (by decide)) (by decide) (by decide) (by decide) (by decide) (by decide)
 
 /-- **F5** (known finding): more than 2 GiB apart the jump-back is `MOV RDX, imm64; JMP [RDX]` — it jumps *through* the
     8 bytes stored at the destination instead of *to* it (monkey_amd64.go:45–:56; fine for the entry jump, whose
